@@ -577,7 +577,6 @@ def post_burst(ctx, c):
 # demands it.  The model's encoders are pure functions of (input, randomness), so its batch result is the map of the
 # single results (C15_seq_* theorems); the correspondence evaluates the model on the batch the implementation produced.
 MODES = {"seq": {}, "shared": {"shared": True}, "conc2p1": {"conc": 2, "procs": 1}, "conc2p4": {"conc": 2, "procs": 4}}
-DEC_ONLY = ("dec_txt", "msg_dec", "encname")
 T_DOMAIN = [b"t", b"example", b"com"]
 
 
@@ -601,7 +600,7 @@ def item_of_js(j):
         return Case("pb_rt", "transports", j, (j["kind"], j["pb"]))
     if op == "anypb":
         return Case("anypb", "transports", j, (j["kind"], j["dstkind"], j["url"], tuple(j["fields"]), False))
-    if op in ("send", "encname"):
+    if op == "send":
         return Case(op, "requester", j, (d, unhexl(j["domain"])))
     raise KeyError(op)
 
@@ -706,12 +705,14 @@ def gen_batch(ctx):
                             (kind, kind, mode_, tuple(f), False)))
     rng.shuffle(its)
     out.append(mk_batch(its, "anypb", "seq"))
-    # the requester's packet -> query path on ONE DNSPacketConn (WriteTo -> queue -> sendLoop -> send), and encodeName alone
+    # the requester's packet -> query path on ONE DNSPacketConn (WriteTo -> queue -> sendLoop -> send).  encodeName alone is
+    # not run in batch mode: the Name it returns is used up by send before the next call, so a recycled scratch buffer
+    # inside it would be a behaviour-preserving change
     for dom in (T_DOMAIN, [b"r"]):
         room = 255 - wire_len(dom)
         edge = max(0, (room * 63 // 64) * 5 // 8)
         plens = [10, 10, 3, 50, edge, edge + 1, 0, 1, edge - 1]
-        for label, mode in (("send", "seq"), ("send", "shared"), ("encname", "seq")):
+        for label, mode in (("send", "seq"), ("send", "shared")):
             its = [Case(label, "requester", {"op": label, "data": d.hex(), "domain": hexl(dom)}, (d, dom)) for d in (rb(rng, n) for n in plens)]
             out.append(mk_batch(its, label, mode, domain=hexl(dom)))
     return out
@@ -770,7 +771,7 @@ def adapt_item(it, ir):
     op = it.js["op"]
     if op == "dec_txt":       # decoder alone: the "encoding" is the caller's own input
         return dict(ir, ok=ir["ok2"], out=ir["out2"], ok2=False, out2="", dec=ir["ok2"], snap=None)
-    if op in ("msg_dec", "encname"):
+    if op == "msg_dec":
         return dict(ir, ok=ir["ok2"], err=ir["err2"], dec=ir["ok2"], snap=None)
     if op == "send":          # the datagram is handed to the transport's Write (which must not keep it): nothing is held
         return dict(ir, snap=None, dec=False)
@@ -823,9 +824,6 @@ def post_batch(ctx, c):
         if it.fam in TERMS:
             t = TERMS[it.fam](it.px, it)
             terms += t if isinstance(t, list) else [t] if t else []
-        elif it.fam == "encname":
-            t = post_encname(it.px, it)
-            terms += [t] if t else []
     # (iii) freshness across the held encodings
     if label.startswith("obf/") and label != "obf/nil":
         v = label[4:]
@@ -864,22 +862,6 @@ def post_batch(ctx, c):
         return None
     seq_terms = [t for t in terms if t.startswith("CSeq")]
     return ["CBatch [%s]" % "; ".join(t for t in terms if not t.startswith("CSeq"))] + seq_terms
-
-
-def post_encname(ctx, c):
-    (d, dom), r = c.aux, c.res
-    enc = b32l(d)
-    labels = labels_of(enc) + list(dom)
-    ctx.count(("encname", d, tuple(dom)))
-    got = unhexl(r.get("labels"))
-    case = {"fam": "encname", "data": d.hex(), "domain": hexl(dom)}
-    if r["ok"] != representable(labels):
-        ctx.fail("encname/representable", "encodeName %s a packet whose query name is %s" % (
-            "accepted" if r["ok"] else "rejected", "representable" if representable(labels) else "not representable"), case)
-    elif r["ok"] and got != labels:
-        ctx.fail("encname/labels", "the name encodeName returned is not base32(packet) in 63-byte labels + domain any more", case)
-    code = 0 if r["ok"] else 3 if "longer than 255" in r["err"] else 2 if "label longer" in r["err"] else 1 if "zero-length" in r["err"] else 98
-    return "CSendName %s %s %s %s" % (hexs(enc), gname(dom), gN(code), gname(got if r["ok"] else []))
 
 
 def post_exchange_seq(ctx, c):
@@ -1692,6 +1674,20 @@ def run(ctx):
     for c in batches:
         attach_batch(ctx, c)
     # second stage: what the requester sent is parsed by the dns package and answered by the responder
+    if ctx.tier == "thorough":
+        # the concurrent batches once more under the race detector (two callers of a stateless encoder must not share storage)
+        by = {}
+        for c in batches:
+            if c.js.get("conc"):
+                by.setdefault(c.pkg, []).append(c)
+        for pkg, cs in sorted(by.items()):
+            mod, path, drv, test = PKGS[pkg]
+            rc, out, _res = ctx.go_inpkg(mod, path, {"zz_verif_driver_test.go": drv}, "^%s$" % test, [c.js for c in cs], race=True)
+            ctx.count(("batch-race", pkg, len(cs)), kind="batch-race/" + pkg)
+            if "DATA RACE" in out:
+                i = out.index("DATA RACE")
+                ctx.fail("seq/race/" + pkg, "the race detector reports a data race between two concurrent callers of the encoders of %s: %s"
+                         % (path, " ".join(out[i:i + 900].split())), {"fam": "batch-race", "pkg": pkg})
     sends = [c for c in cases if c.fam == "send"]
     sends += [it for c in batches if c.aux["label"] == "send" and c.aux["items"][0].res is not None for it in c.aux["items"]]
     stage2 = []
@@ -1784,7 +1780,7 @@ def run(ctx):
                        "batch/obf/ctr/seq", "batch/obf/ctr/shared", "batch/obf/ctr/conc2p1", "batch/obf/ctr/conc2p4", "batch/obf/gcm/seq",
                        "batch/obf/gcm/shared", "batch/obf/gcm/conc2p1", "batch/obf/gcm/conc2p4", "batch/name_rt/seq", "batch/name_rt/conc2p1",
                        "batch/msg_rt/seq", "batch/msg_rt/conc2p1", "batch/msg_dec/seq", "batch/pb_rt/seq", "batch/pb_rt/conc2p1", "batch/anypb/seq",
-                       "batch/send/seq", "batch/send/shared", "batch/encname/seq", "exchange_seq", "rburst",
+                       "batch/send/seq", "batch/send/shared", "exchange_seq", "rburst",
                        "dot_rt/ok", "dot_rt/oversize", "dot_recv/clean", "dot_recv/error",
                        "anypb/keep/ok", "anypb/empty/ok", "anypb/tapdance/ok", "anypb/other/err", "anypb/cross-keep/err", "anypb/nil/ok"])
     _t("oracle + terms")
